@@ -67,6 +67,16 @@ class ArrEval:
                 return self.shape(t[2][1]) or self.shape(t[2][2])
             if f in ("builtins.min", "builtins.max", "builtins.float", "builtins.int"):
                 return ()
+            if f in ("numpy.dot", "numpy.matmul", ".dot") and len(t[2]) == 2:
+                a, b = self.shape(t[2][0]), self.shape(t[2][1])
+                if a is not None and b is not None and len(a) == 2 and len(b) == 2:
+                    return (a[0], b[1])
+                if a is not None and b is not None and len(a) == 1 and len(b) == 2:
+                    return (b[1],)
+                return None
+            if f in ("numpy.transpose", ".transpose") and len(t[2]) == 1:
+                a = self.shape(t[2][0])
+                return tuple(reversed(a)) if a is not None else None
             return None
         if k in ("list", "tuple"):
             if t[1] and t[1][0][0] in ("list", "tuple"):
@@ -99,6 +109,14 @@ class ArrEval:
                 # integer index drops the axis
             out.extend(bs[len(idx):])
             return tuple(out)
+        if k == "bin" and t[1] == "@":
+            return self.shape(("call", "numpy.dot", (t[2], t[3]), ()))
+        if k == "attr" and t[2] == "T":
+            a = self.shape(t[1])
+            return tuple(reversed(a)) if a is not None else None
+        if k == "phi":
+            a, b = self.shape(t[2]), self.shape(t[3])
+            return a if a == b else None
         if k == "bin":
             a, b = self.shape(t[2]), self.shape(t[3])
             if a is None:
@@ -154,6 +172,10 @@ class ArrEval:
                 return ("call", "numpy.where", (self.entry(c, idx), self.entry(a, idx), self.entry(b, idx)), ())
             if f in ("builtins.float", "builtins.int", "builtins.min", "builtins.max"):
                 return self.deep(t)
+            if f in ("numpy.dot", "numpy.matmul", ".dot") and len(t[2]) == 2:
+                return self._dot_entry(t[2][0], t[2][1], idx)
+            if f in ("numpy.transpose", ".transpose") and len(t[2]) == 1:
+                return self.entry(t[2][0], tuple(reversed(idx)))
             raise NoEntry(f"call {show(t)[:50]}")
         if k in ("list", "tuple"):
             e = t[1][idx[0]]
@@ -195,15 +217,37 @@ class ArrEval:
         if k == "elem":
             # tuple-unpacking of a row: a, b, c = M[0, :]
             return self.entry(t[1], (t[2],))
+        if k == "bin" and t[1] == "@":
+            return self._dot_entry(t[2], t[3], idx)
+        if k == "attr" and t[2] == "T":
+            return self.entry(t[1], tuple(reversed(idx)))
         if k == "bin" and t[1] in ("+", "-", "*", "/", "**"):
             return ("bin", t[1], self._bentry(t[2], idx), self._bentry(t[3], idx))
         if k == "cmp":
             return ("cmp", t[1], self._bentry(t[2], idx), self._bentry(t[3], idx))
         if k == "un" and t[1] == "-":
             return ("un", "-", self._bentry(t[2], idx))
+        if k == "phi":
+            # conditional value: the entry under either outcome (the test stays a whole-array term)
+            return ("phi", t[1], self.entry(t[2], idx), self.entry(t[3], idx))
         if k == "mu":
             raise NoEntry("loop-carried array")
         raise NoEntry(f"term {show(t)[:50]}")
+
+    def _dot_entry(self, A: Term, B: Term, idx) -> Term:
+        """(A B)[r, c] = sum_k A[r, k] B[k, c] for matrices of concrete inner extent (row vectors: (a B)[c] = sum_k a[k] B[k, c])"""
+        sa, sb = self.shape(A), self.shape(B)
+        if sa is None or sb is None or len(sb) != 2 or not isinstance(sb[0], int) or len(sa) not in (1, 2):
+            raise NoEntry("matrix product of unresolved shapes")
+        if isinstance(sa[-1], int) and sa[-1] != sb[0]:
+            raise NoEntry("matrix product: inner extents differ")
+        acc = None
+        for k_ in range(sb[0]):
+            a = self.entry(A, (idx[0], k_)) if len(sa) == 2 else self.entry(A, (k_,))
+            b = self.entry(B, (k_, idx[-1]))
+            term = ("bin", "*", a, b)
+            acc = term if acc is None else ("bin", "+", acc, term)
+        return acc
 
     def deep(self, t: Term) -> Term:
         """Resolve every scalar array read (tuple-unpacked rows, constant subscripts) inside a scalar term."""
